@@ -31,6 +31,8 @@ type Transport struct {
 	CloseN    int
 	FailWrite func(n int) error // consulted before the n-th write/writev (1-based)
 	FailFlush func(n int) error
+	// PartialOnFail: a failing Write has already taken the first byte of the payload (n = 1 together with the error)
+	PartialOnFail bool
 	nWrite    int
 	nFlush    int
 	BytesRead int
@@ -129,6 +131,9 @@ func (t *Transport) Write(p []byte) (int, error) {
 	if t.FailWrite != nil {
 		if err := t.FailWrite(t.nWrite); err != nil {
 			t.record(Call{Op: "write", Err: err.Error()})
+			if t.PartialOnFail && len(p) > 0 {
+				return 1, err
+			}
 			return 0, err
 		}
 	}
